@@ -391,7 +391,16 @@ func (e *c09env) runFaulted(s session, plan netfx.Plan, kase *c09case) (f failur
 	px.Hold()
 	defer px.Release()
 	var preset *presetClient
-	if kase.Trap != "" {
+	if strings.Contains(kase.Trap, "point 19") {
+		// connect() starts the routine and then registers it: hold the caller between the two for the first
+		// connect, long enough for a loopback dial to complete and the routine to finish
+		disarm := setTrap(mpx.VerifPointClientRoutineRun, func() { time.Sleep(20 * time.Millisecond) })
+		defer func() {
+			if disarm() {
+				ev.Label(c09, "first-connect-routine-registered-late", 1)
+			}
+		}()
+	} else if kase.Trap != "" {
 		// the first connect routine of the client is held between "connection goroutine started" and
 		// "connection registered"; the proxy starts forwarding at that moment, so a fault inside the
 		// handshake closes the connection before it is registered
@@ -695,6 +704,8 @@ func TestC09_FaultEnumeration(t *testing.T) {
 		// the handshake to fail and the connection to close first
 		if s.auto && j.off < 80 && i%2 == 0 {
 			kase.Trap = "connect routine held 30 ms at schedule point 16 while the stream (and the fault) proceeds"
+		} else if s.auto && i%4 == 1 {
+			kase.Trap = "registration of the first connect routine delayed 20 ms at schedule point 19 (the routine can finish first)"
 		}
 		t0 := time.Now()
 		f, faulted := e.runFaulted(s, plan, kase)
